@@ -313,4 +313,94 @@ theorem txt_divisor_object_roundtrip (G : Graph n) (hG : G.WF) (D : Fin n → In
   obtain ⟨d, hd1, hd2, hd3⟩ := divisor_dict_roundtrip D
   exact ⟨_, _, G', d, hfile, by rw [hres]; exact h1, h2, h3, h4, by rw [hrecs]; exact hd1, hd2, hd3⟩
 
+/-- **a firing script through a TXT file, end to end**: the writer lists the non-zero net firings;
+    read back and resolved against the name list they rebuild exactly the script (vertices that are
+    not listed fire 0 times) -/
+theorem txt_script_object_roundtrip (G : Graph n) (hG : G.WF) (sc : Fin n → Int) (names : List Txt.Str)
+    (hlen : names.length = n) (hnd : names.Nodup) (hok : ∀ f ∈ names, Txt.nameOK f = true) :
+    ∃ es recs G' t, Txt.readScript (Txt.writeText (Txt.writeScript names
+        (namedEdges G fun v => names[v.1]'(hlen ▸ v.2))
+        ((List.finRange n).map fun v => (names[v.1]'(hlen ▸ v.2), sc v)))) = some (names, es, recs) ∧
+      Graph.new n false (resolveEdges names es) = .ok G' ∧ G'.adj = G.adj ∧
+      (scriptNew (recs.map fun r => (names.idxOf r.1, r.2)) : Except Unit (Vec Int n)) = .ok t ∧ t.get = sc := by
+  let nm : Fin n → Txt.Str := fun v => names[v.1]'(hlen ▸ v.2)
+  have hnm : ∀ v, nm v ∈ names := fun v => List.getElem_mem _
+  have hidx : ∀ v : Fin n, names.idxOf (nm v) = v.1 := fun v => List.get_idxOf hnd ⟨v.1, hlen ▸ v.2⟩
+  have hinj : ∀ a b : Fin n, nm a = nm b → a = b := by
+    intro a b h
+    have := congrArg names.idxOf h
+    rw [hidx a, hidx b] at this
+    exact Fin.ext this
+  have hfile := txt_script_file_roundtrip names (namedEdges G nm) ((List.finRange n).map fun v => (nm v, sc v)) hok
+    (by
+      intro e he
+      obtain ⟨⟨a, b, k⟩, -, rfl⟩ := List.mem_map.mp he
+      exact ⟨hok _ (hnm a), hok _ (hnm b)⟩)
+    (by
+      intro r hr
+      obtain ⟨v, -, rfl⟩ := List.mem_map.mp hr
+      exact hok _ (hnm v))
+    (by
+      rw [List.map_map]
+      exact (List.nodup_finRange n).map_on (fun a _ b _ h => hinj a b h))
+  have hres : resolveEdges names (namedEdges G nm) = dictEdges G := by
+    unfold resolveEdges namedEdges dictEdges
+    rw [List.map_map]
+    apply List.map_congr_left
+    rintro ⟨a, b, k⟩ -
+    simp [hidx a, hidx b]
+  let vs := (List.finRange n).filter fun v => sc v != 0
+  have hrecs : ((((List.finRange n).map fun v => (nm v, sc v)).filter fun r => r.2 != 0).map
+      fun r => (names.idxOf r.1, r.2)) = vs.map fun v => (v.1, sc v) := by
+    rw [List.filter_map, List.map_map]
+    apply List.map_congr_left
+    intro v _
+    simp [hidx v]
+  obtain ⟨G', h1, h2, -, -⟩ := graph_dict_roundtrip G hG
+  obtain ⟨t, ht1, ht2⟩ := script_dict_roundtrip sc vs ((List.nodup_finRange n).filter _) (by
+    intro w hw
+    by_contra hne
+    exact hw (List.mem_filter.mpr ⟨List.mem_finRange w, by simpa using hne⟩))
+  exact ⟨_, _, G', t, hfile, by rw [hres]; exact h1, h2, by rw [hrecs]; exact ht1, ht2⟩
+
+/-- **an orientation through a TXT file, end to end**: the `(source, sink)` records of the oriented
+    edges come back and, resolved against the name list, rebuild every edge state and both
+    counters -/
+theorem txt_orientation_object_roundtrip (G : Graph n) (hG : G.WF) (o : Orient n) (hinv : Orient.Inv G o)
+    (ps : List (Fin n × Fin n)) (hpnd : ps.Nodup) (hps : ∀ a b, (a, b) ∈ ps ↔ 0 < G.adj a b ∧ o.st a b = 1)
+    (names : List Txt.Str) (hlen : names.length = n) (hnd : names.Nodup) (hok : ∀ f ∈ names, Txt.nameOK f = true) :
+    ∃ es recs G' o', Txt.readOrientation (Txt.writeText (Txt.writeOrientation names
+        (namedEdges G fun v => names[v.1]'(hlen ▸ v.2))
+        (ps.map fun p => (names[p.1.1]'(hlen ▸ p.1.2), names[p.2.1]'(hlen ▸ p.2.2))))) = some (names, es, recs) ∧
+      Graph.new n false (resolveEdges names es) = .ok G' ∧ G'.adj = G.adj ∧
+      Orient.new G (recs.map fun r => (names.idxOf r.1, names.idxOf r.2)) = .ok o' ∧
+      (∀ x y, o'.st x y = o.st x y) ∧ (∀ v, o'.inD v = o.inD v) ∧ (∀ v, o'.outD v = o.outD v) := by
+  let nm : Fin n → Txt.Str := fun v => names[v.1]'(hlen ▸ v.2)
+  have hnm : ∀ v, nm v ∈ names := fun v => List.getElem_mem _
+  have hidx : ∀ v : Fin n, names.idxOf (nm v) = v.1 := fun v => List.get_idxOf hnd ⟨v.1, hlen ▸ v.2⟩
+  have hfile := txt_orientation_file_roundtrip names (namedEdges G nm) (ps.map fun p => (nm p.1, nm p.2)) hok
+    (by
+      intro e he
+      obtain ⟨⟨a, b, k⟩, -, rfl⟩ := List.mem_map.mp he
+      exact ⟨hok _ (hnm a), hok _ (hnm b)⟩)
+    (by
+      intro r hr
+      obtain ⟨p, -, rfl⟩ := List.mem_map.mp hr
+      exact ⟨hok _ (hnm p.1), hok _ (hnm p.2)⟩)
+  have hres : resolveEdges names (namedEdges G nm) = dictEdges G := by
+    unfold resolveEdges namedEdges dictEdges
+    rw [List.map_map]
+    apply List.map_congr_left
+    rintro ⟨a, b, k⟩ -
+    simp [hidx a, hidx b]
+  have hrecs : ((ps.map fun p => (nm p.1, nm p.2)).map fun r => (names.idxOf r.1, names.idxOf r.2)) =
+      ps.map fun p => (p.1.1, p.2.1) := by
+    rw [List.map_map]
+    apply List.map_congr_left
+    intro p _
+    simp [hidx p.1, hidx p.2]
+  obtain ⟨G', h1, h2, -, -⟩ := graph_dict_roundtrip G hG
+  obtain ⟨o', ho1, ho2, ho3, ho4⟩ := orientation_dict_roundtrip G hG o hinv ps hpnd hps
+  exact ⟨_, _, G', o', hfile, by rw [hres]; exact h1, h2, by rw [hrecs]; exact ho1, ho2, ho3, ho4⟩
+
 end CF.C15
